@@ -21,6 +21,15 @@ CHECKS = {
             "each decomposition algorithm. Held on the executions observed; evidence lists input classes and worst errors.",
             "local matrices from BasisSet.op_mat (judged by C16); dims <= 1024; uint16 table limits out of reach",
             "DESIGN.md section 3 / C01"),
+    "C02": ("exploration",
+            "reference-model monitor: real TTNO construction on >= 3 generated topologies per case (library constructors "
+            "and hand-made random trees with multi-set and dummy nodes), compared with the dense sum of Kronecker "
+            "products, pairwise between topologies and with the chain MPO; multiset monitor on tree.basis_list",
+            "Every tree kind, dummy root/internal/leaf, multi-set nodes, arity 3, three algorithms, none/one/two quantum "
+            "numbers; the complex class must be refused, never silently made real.",
+            "nbas >= 2 for physical sets (todense squeezes size-1 axes); prod(d) <= 1024; print_tree shim on sys.path of "
+            "the check processes only",
+            "DESIGN.md section 3 / C02"),
     "C03": ("exploration",
             "reference-model monitor over recorded operation histories: every arithmetic result is compared with the "
             "same operation on dense operands, immediately and after canonicalising/compressing a copy",
@@ -53,6 +62,25 @@ CHECKS = {
             "genuinely complex Mps and purified MpDm states in any gauge.",
             "coeff is a separate prefactor (library convention); prod(d) <= 1024",
             "DESIGN.md section 3 / C07"),
+    "C09": ("exploration",
+            "reference-model monitor: every chain evolution scheme is run on generated models and compared with "
+            "scipy expm / DOP853 on the dense vector; measured convergence order, solver differential, adaptive vs "
+            "tolerance, splitting, conservation monitors along trajectories, bond-limit invariant, Krylov contract "
+            "observing Hermiticity at the real call sites",
+            "39 scheme variants rotated over generated Hermitian models/sectors/states with oracles A-F, time-dependent "
+            "H(t), density-operator states, multi-call histories and the shared-EvolveConfig hostile class.",
+            "bond dimensions sufficient to hold the result (generic full-rank initial states); calibrated acceptance "
+            "thresholds (DESIGN C09); dim <= 200",
+            "DESIGN.md section 3 / C09"),
+    "C10": ("exploration",
+            "reference-model monitor: imaginary-time steps of every scheme vs dense exp(-tau H), ThermalProp trajectories "
+            "vs dense Gibbs averages in the sector, exact_propagator / evolve_exact vs dense exponentials of the local "
+            "vibrational Hamiltonian assembled from the Phonon parameters",
+            "Generated models/sectors/states for the single-step order oracle; generated Holstein models (schemes 1-4, "
+            "omega0 != omega1, 0/1 exciton) for thermal propagation with N and 2N steps; real/imaginary/complex "
+            "propagator arguments and non-zero shifts/offsets.",
+            "dense references (dim <= 1500); P&C at unlimited bond dimension for the thermal runs",
+            "DESIGN.md section 3 / C10"),
     "C15": ("exploration",
             "reference-model monitor over generated expression programs: each node is evaluated with the library's "
             "operators and denoted as a dense matrix that must equal the matrix expression of its operands; eq/hash laws",
